@@ -306,6 +306,28 @@ def run_session(rng, dev, budget):
                         M.run('add_label $%x %s' % (v, rng.choice(['entry', 'ptr', 'loop_1'])), budget)
                     if rng.random() < 0.2:
                         M.run('delete_label %s' % rng.choice(['entry', 'ptr', 'loop_1']), budget)
+                # (preparation of the second listing below: the storing program is put in place BEFORE the first listing, so
+                # that nothing but `goto` happens between the two listings)
+                prog_at = None
+                opnds = []
+                i = 0
+                while i < len(cells):
+                    ln = {'imp': 1, 'acc': 1, 'imm': 2, 'zpg': 2, 'zpx': 2, 'zpy': 2, 'inx': 2, 'iny': 2, 'rel': 2, 'zpi': 2,
+                          'abs': 3, 'abx': 3, 'aby': 3, 'ind': 3, 'iax': 3}.get(table[cells[i]][1], 1)
+                    opnds += [k for k in range(i + 1, min(i + ln, len(cells)))]
+                    i += ln
+                if opnds and rng.random() < 0.4:
+                    free = [q for q in (0x0300, 0x2000, 0x8000, 0xa000)
+                            if all(abs(((start + k) & am) - (q + j)) > 2 for k in range(len(cells) + 3) for j in range(8))]
+                    if free:
+                        P = rng.choice(free)
+                        k = rng.choice(opnds)
+                        tgt = (start + k) & am
+                        old = cells[k]
+                        new = rng.choice([v for v in (old ^ 0x42, (old + 1) & bm, 0, bm, rnd(rng, W)) if v != old])
+                        prog = [0xa9, new, 0x8d, tgt & bm, tgt >> W, 0x00]
+                        M.run('fill $%x %s' % (P, ' '.join('$%x' % c for c in prog)), budget)
+                        prog_at = (P, new, tgt)
                 line = 'disassemble $%x:$%x' % (start, end) if end >= start or rng.random() < 0.5 else 'disassemble $%x' % start
                 kind, val, t = M.run(line, budget)
                 if kind != 'ret':
@@ -317,6 +339,25 @@ def run_session(rng, dev, budget):
                 add_item(dict(kind='disasm', line=line, what=bad, model=None,
                                   key=('disasm', dev, top_case, len(ops), table[ops[0]][1]), nontrivial=True))
                 items += mitems
+                # memory changed BY THE RUNNING PROGRAM between two listings of the same range: a small program elsewhere
+                # stores a new value into an operand cell of a listed instruction (the opcode stays), `goto` runs it to its
+                # BRK, and the range is listed again -- what `disassemble` shows must be what memory holds now
+                if bad is None and prog_at is not None:
+                    P, new, tgt = prog_at
+                    if run('goto $%x' % P) is None:
+                        break
+                    kind, val, t = M.run(line, budget)
+                    if kind != 'ret':
+                        add_item(dict(kind='run', line=line, what=None, model=None, key=('abort',), nontrivial=False))
+                        break
+                    add_status(t, line)
+                    body = t[:-(len(repr(M.m._mpu)) + 2)]
+                    bad, mitems = check_disasm(body, dev, M, start, end if ':' in line else start, table)
+                    if bad:
+                        bad += ' [second listing, after the program at $%x stored $%x to $%x]' % (P, new, tgt)
+                    add_item(dict(kind='disasm', line=line, what=bad, model=None,
+                                      key=('disasm-after-store', dev, top_case, table[ops[0]][1]), nontrivial=True))
+                    items += mitems
             else:
                 # tilde
                 n = rng.choice([0, 1, 7, 8, 9, 10, 15, 16, 255, 256, 0o777, 0o1000, 65535, am, am - 1, rng.randrange(am + 1)]) & am
